@@ -58,7 +58,8 @@ def judge_commit(ctx, hist, v, touched, action, detail):
             per_descr.setdefault(st['DescriptorHandle'], []).append(h)
     for d, hs in per_descr.items():
         ctx.count('invariant.one_assoc.checked')
-        if len(hs) > 1:
+        was_assoc = {x for x, st in prev['states'].items() if st['ContextAssociation'] == 'Assoc'}
+        if len(hs) > 1 and set(hs) - was_assoc:  # this commit added an associated state to a descriptor that keeps another one
             ctx.witness(f'{mech}.two_associated_states', 'a context descriptor has more than one associated state after a commit',
                         {**info, 'descriptor': d, 'associated': sorted(hs)})
     # (4) handles unique, never a descriptor handle
@@ -97,7 +98,7 @@ def judge_commit(ctx, hist, v, touched, action, detail):
                 bad.append('BindingEndTime not set')
             if bad:
                 key = (f'{mech}.disassociate_stale_unbinding' if role == 'named' and mech == 'setcontextstate'
-                       else f'{SIDE_EFFECT_SITE[mech]}.stale_unbinding' if role == 'side_effect' else f'{mech}.{role}.disassociated_wrong_unbinding')
+                       else f'{SIDE_EFFECT_SITE.get(mech, mech)}.stale_unbinding' if role == 'side_effect' else f'{mech}.{role}.disassociated_wrong_unbinding')
                 ctx.witness(key, 'a state that stopped being associated does not carry the unbinding version / end time of that commit', {**rec, 'wrong': bad})
         elif now and not was:
             ctx.count('transition.to_assoc')
@@ -505,7 +506,8 @@ def w_sequences(ctx: core.Ctx, arg):
                     shapes = []
                 world.network.log.clear()
         finally:
-            world.stop()
+            if wno < arg['worlds'] - 1:  # the worker process ends with os._exit: the last world needs no (slow) orderly shutdown
+                world.stop()
 
 
 def run(ctx: core.Ctx):
@@ -519,9 +521,9 @@ def run(ctx: core.Ctx):
         'the binding data itself', '"set" for BindingStartTime / BindingEndTime means not None (a stale time is not flagged), versions must equal the '
         'MdibVersion of the commit', 'new associated states get an Identification (the scopes factory of publish() requires it)']
     if ctx.quick:
-        jobs = [['w_sequences', {'i': k, 'worlds': 2, 'steps': 110}] for k in range(16)]
+        jobs = [['w_sequences', {'i': k, 'worlds': 1, 'steps': 280}] for k in range(16)]
     else:
-        jobs = [['w_sequences', {'i': k, 'worlds': 8, 'steps': 900}] for k in range(32)]
+        jobs = [['w_sequences', {'i': k, 'worlds': 5, 'steps': 1000}] for k in range(32)]
     core.fanout(ctx, MODULE, 'dispatch', jobs, timeout=3000)
     ctx.floor('commit.judged', 1500)
     for mech in ('set_location', 'setcontextstate', 'transaction', 'entity'):
